@@ -331,8 +331,44 @@ def exec_sseq(lm, core, t):
     return " ; ".join(answers), (err or True), nontrivial, "sseq"
 
 
+def exec_stale(lm, core, t):
+    """c18stale <observation> <K> <L> <M> <symbols> <tail>: a view exported before calculate(), read after it"""
+    K, L, M = int(t[2]), int(t[3]), int(t[4])
+    syms = [int(x) for x in t[5:5 + L]]
+    tail = t[5 + L:]
+    alpha = alpha_of(tail[0])
+    R = (L + 31) // 32
+    seq = mk_striped(lm, alpha, syms)
+    before = memoryview(seq)
+    snapshot = before.tolist()
+    pssm = [[f32_bits(0.0)] * K for _ in range(M)]
+    g = guarded(lambda: mk_scoring(lm, alpha, pssm).calculate(seq))
+    if g[0] != "ok":
+        obs = g[0]
+    else:
+        junk = [bytearray(b"\xAA" * max(1, R * 32)) for _ in range(64)]
+        after = before.tolist()
+        del junk
+        obs = "same" if after == snapshot else "differs"
+    before.release()
+    line = " ".join(["c18stale", obs] + t[2:])
+    err = None
+    if obs == "differs":
+        err = (f"stale-view: a memoryview of a striped sequence (L={L}) exported before calculate() with a motif of {M} rows "
+               "shows foreign memory after it (the row storage was reallocated under the exported pointer)")
+    elif obs not in ("same", "BufferError"):
+        err = f"calculate() raised {obs}"
+    return line, "adm-ok", (err or True), True, "stale"
+
+
 def exec_line(lm, core, line):
     t = line.split()
+    if t[0] == "c18stale":
+        return exec_stale(lm, core, t)
+    return (line,) + exec_line_(lm, core, t)
+
+
+def exec_line_(lm, core, t):
     if t[0] == "c18idx":
         return exec_idx(lm, core, t)
     if t[0] == "c18buf":
@@ -500,13 +536,44 @@ def generate(cfg, core):
     return [" ".join(c.split()) for c in cases]
 
 
+def stale_stream(cfg, out):
+    """The dangling-view finding (a view exported BEFORE the object is reused).  Reading freed memory
+    is undefined behaviour, so the cases are part of the stream only once the finding is recorded in
+    known_findings.json (id C18-stale-view; the orchestrator then prints KNOWN-FINDING).  Otherwise the
+    stand-alone script pyharness/stale_view.py is run in a process of its own and what it saw is
+    reported in the evidence (`excluded/stale-view/...`)."""
+    import json, os, subprocess, sys
+    root = os.path.dirname(os.path.dirname(os.path.abspath(__file__)))
+    try:
+        kf = json.load(open(os.path.join(root, "known_findings.json")))
+        recorded = any(f.get("id") == "C18-stale-view" for f in kf.get("findings", []))
+    except Exception:
+        recorded = False
+    if recorded:
+        rng = common.Rng(cfg.seed ^ 0x5157)
+        cases = []
+        for L, M in [(1000, 300), (8000, 4000), (64, 2), (2000, 1), (500, 33)]:
+            cases.append(f"c18stale ? 5 {L} {M} {join(rand_syms(rng, 'dna', L))} 0 0")
+        return cases
+    try:
+        p = subprocess.run([sys.executable, "-B", os.path.join(root, "pyharness", "stale_view.py")],
+                           stdout=subprocess.PIPE, stderr=subprocess.DEVNULL, text=True, timeout=120)
+        word = (p.stdout.split() or [f"exit{p.returncode}"])[0]
+    except Exception as e:  # noqa: BLE001
+        word = "not-run-" + type(e).__name__
+    out.stat("excluded/stale-view/" + word)
+    return []
+
+
 def run(cfg, lm):
     core = common.Core()
     out = common.Out(cfg.out)
     cases = common.replay_cases(cfg.replay) if cfg.replay else generate(cfg, core)
+    if not cfg.replay:
+        cases += stale_stream(cfg, out)
     for c in cases:
         out.announce(c)
-        ans, orc, nontrivial, key = exec_line(lm, core, c)
+        c, ans, orc, nontrivial, key = exec_line(lm, core, c)
         out.stat(key)
         first = ans.split(" ; ")[0].split()
         if "panic" in ans.split():
